@@ -54,6 +54,7 @@ type Term struct {
 	str   string
 	name  string
 	vars  map[string]struct{}
+	cases []ctCase // guarded-constant normal form (ctree.go), nil for ordinary terms
 }
 
 var (
@@ -139,6 +140,35 @@ func (t *Term) String() string {
 	}
 	t.str = s
 	return s
+}
+
+// Preview prints at most about limit characters of t without materialising (or caching) the full tree form:
+// String() of a deeply shared DAG is exponential in its depth, which made evidence samples of large data-style
+// assertions (C06 read-back tables) cost minutes and gigabytes.
+func (t *Term) Preview(limit int) string {
+	var sb strings.Builder
+	var rec func(x *Term)
+	rec = func(x *Term) {
+		if sb.Len() > limit {
+			return
+		}
+		if x.str != "" || x.Op == "const" || x.Op == "var" {
+			sb.WriteString(x.String())
+			return
+		}
+		sb.WriteByte('(')
+		sb.WriteString(strings.TrimPrefix(x.Op, "uf:"))
+		for _, a := range x.Args {
+			if sb.Len() > limit {
+				break
+			}
+			sb.WriteByte(' ')
+			rec(a)
+		}
+		sb.WriteByte(')')
+	}
+	rec(t)
+	return truncate(sb.String(), limit)
 }
 
 func (t *Term) Vars() map[string]struct{} {
@@ -232,6 +262,24 @@ func Ite(c, a, b *Term) *Term {
 		if a.IsFalse() && b.IsTrue() {
 			return Not(c)
 		}
+		// one constant branch: plain connectives instead of a Boolean ite
+		if a.IsTrue() {
+			return Or(c, b)
+		}
+		if a.IsFalse() {
+			return And(Not(c), b)
+		}
+		if b.IsTrue() {
+			return Or(Not(c), a)
+		}
+		if b.IsFalse() {
+			return And(c, a)
+		}
+	}
+	if a.Sort.Kind != 'B' {
+		if r := ctIte(c, a, b); r != nil {
+			return r
+		}
 	}
 	return mk("ite", a.Sort, c, a, b)
 }
@@ -245,6 +293,9 @@ func Eq(a, b *Term) *Term {
 	}
 	if a == b {
 		return TrueT
+	}
+	if a.Sort.Kind != 'B' && ctLiftable(a, b) {
+		return ctRel(a, b, func(x, y *Term) bool { return x.Val == y.Val })
 	}
 	if a.Sort.Kind == 'B' {
 		if a.IsTrue() {
@@ -318,6 +369,11 @@ func BVBin(op string, a, b *Term) *Term {
 			return ConstBV(uint64(a.Signed()>>sh), w)
 		}
 	}
+	if (op == "bvadd" || op == "bvsub" || op == "bvmul") && ctLiftable(a, b) {
+		if r := ctArith(a, b, func(x, y *Term) *Term { return ctArithLeaf(op, x, y) }); r != nil {
+			return r
+		}
+	}
 	if IntMode && w == 64 {
 		switch op {
 		case "bvsdiv", "bvsrem":
@@ -389,6 +445,9 @@ func BVCmp(op string, a, b *Term) *Term {
 		case "bvsge":
 			return ConstBool(a.Signed() >= b.Signed())
 		}
+	}
+	if ctLiftable(a, b) {
+		return ctRel(a, b, func(x, y *Term) bool { return BVCmp(op, x, y).IsTrue() })
 	}
 	return mk(op, BoolSort, a, b)
 }
